@@ -246,6 +246,11 @@ def kind_deep(fn, operand, depth=0, seen=None):
             st = fn.stmts(d[1])[d[2]]
             for o in st["rv"]["ops"]:
                 out |= kind_deep(fn, o, depth + 1, seen)
+        elif d[0] == "op" and depth < 10 and ("op", d[1], d[2]) not in seen:
+            seen.add(("op", d[1], d[2]))
+            from ..flow import rvalue_operands
+            for o in rvalue_operands(fn.stmts(d[1])[d[2]]["rv"]):
+                out |= kind_deep(fn, o, depth + 1, seen)
     return out
 
 
